@@ -359,7 +359,9 @@ func TestVerifDriver(t *testing.T) {
 	}
 	if vMode() == "replay" {
 		for _, v := range vReadInputs() {
+			vForce = v.Mode
 			emit(v.Op, v.In)
+			vForce = ""
 		}
 		return
 	}
